@@ -42,11 +42,15 @@ def r1_r2(ctx, rep):
             m = mm
     if m is None:
         raise AnchorMissing("fold_sql_transforms: match transform")
-    rows = {}
+    rows, guarded_rows = {}, {}
     for arm in m["arms"]:
         for alt in pat_alts(arm["pat"]):
             h = pat_head(alt)
-            rows[last_seg(h) if isinstance(h, str) else str(h)] = arm
+            name = last_seg(h) if isinstance(h, str) else str(h)
+            if arm.get("guard") is not None:
+                guarded_rows.setdefault(name, []).append(arm)      # `P if g => body`  ==  `P => if g { body }` when no later arm matches P
+            else:
+                rows.setdefault(name, arm)
 
     def clears_uncond(arm):
         body = arm["body"]
@@ -64,6 +68,8 @@ def r1_r2(ctx, rep):
     wild = rows.get("_")
     rep.check(wild is not None and show(wild["body"]) in ("{…}", "{}", "()") and not clears_anywhere(wild), "retain:default",
               "transforms without their own arm (select, derive, filter) must leave the sorting untouched", file=f["file"], line=wild["l"] if wild else f["l"], fn=f["path"])
+    stray = sorted(n_ for n_, arms_ in guarded_rows.items() if n_ not in ("Join", "Distinct", "Aggregate") and any(clears_anywhere(a_) for a_ in arms_))
+    rep.check(not stray, "retain:guarded-arms", f"guarded arm(s) for {stray} clear the sorting: only Distinct / Aggregate reset the order (and Join the order of a DISTINCT ON)", file=f["file"], line=f["l"], fn=f["path"])
     for t in ("Select", "Filter", "Compute"):
         rep.check(t not in rows or not clears_anywhere(rows[t]), f"retain:{t}", f"{t} must retain the order", file=f["file"], line=f["l"], fn=f["path"])
     # Sort replaces and is not emitted here
@@ -73,8 +79,14 @@ def r1_r2(ctx, rep):
     # Join: clear only under sorting_from_distinct_on
     j = rows.get("Join")
     import guards as _g
-    ok = j is not None and not clears_uncond(j) and any("sorting.clear()" in show_stmts(b) for b in _g.branches_when(j["body"], "sorting_from_distinct_on", True)) \
-        and not any("sorting.clear()" in show_stmts(b) for b in _g.branches_when(j["body"], "sorting_from_distinct_on", False))
+    if j is not None:
+        ok = not clears_uncond(j) and any("sorting.clear()" in show_stmts(b) for b in _g.branches_when(j["body"], "sorting_from_distinct_on", True)) \
+            and not any("sorting.clear()" in show_stmts(b) for b in _g.branches_when(j["body"], "sorting_from_distinct_on", False)) and not guarded_rows.get("Join")
+    else:
+        # the same decision as an arm guard: `Join {..} if sorting_from_distinct_on => { sorting.clear(); .. }` and no other Join arm (a join otherwise falls to the default arm)
+        gj = guarded_rows.get("Join", [])
+        ok = len(gj) == 1 and _g.polarity_of("sorting_from_distinct_on")(gj[0]["guard"]) == 1 and clears_anywhere(gj[0]) and rows.get("_") is not None and not clears_anywhere(rows["_"])
+        j = gj[0] if gj else None
     rep.check(ok, "retain:Join", "a join keeps the left input's order; only an order that exists for DISTINCT ON row selection is dropped", file=f["file"], line=j["l"] if j else f["l"], fn=f["path"])
     # From inherits the referenced CTE's sorting
     fr = rows.get("From")
